@@ -344,6 +344,23 @@ func init() {
 			return nil
 		},
 		"sort.SliceStable": nil,
+		"github.com/avfs/avfs.volumeNameLen": func(in *Interp, fn *ssa.Function, args []Value, caller *frame) Value {
+			f := in.world.fn("internal/filepathlite", "volumeNameLen")
+			if f == nil {
+				in.endPath("UNSUPPORTED", "internal/filepathlite.volumeNameLen not loaded")
+			}
+			return in.call(f, args, caller)
+		},
+		// os.nextRandom (linkname): "some decimal string", narrowed to one digit
+		// in {0,1} so that collisions of temporary names are reachable.
+		"github.com/avfs/avfs.nextRandom": func(in *Interp, fn *ssa.Function, args []Value, caller *frame) Value {
+			in.usedRandom = true
+			v := in.newInput("nextRandom", 8, "random", types.Typ[types.Uint8]).(*Term)
+			if !in.cond(in.fromTerm(in.tm.Cmp("bvule", v, in.tm.Const(1, 8)), types.Typ[types.Bool])) {
+				in.endPath("ASSUME", "random digit out of the modelled range")
+			}
+			return SStr{in.fromTerm(in.tm.Bin("bvadd", v, in.tm.Const('0', 8)), types.Typ[types.Uint8])}
+		},
 		"os.Getenv": func(in *Interp, fn *ssa.Function, args []Value, _ *frame) Value { return SStr(nil) },
 	}
 	delete(intrTable, "sort.SliceStable")
